@@ -60,6 +60,7 @@ type Obs struct {
 	Errors    []string // "xor:<id>" / "inc:<id>" no-effective-flow errors, "task:<id>" task errors
 	Landmarks []string // sub-process activations completed
 	Stuck     []string // nodes where a token is parked forever by specification
+	Fired     []string // catch / boundary events that fired (one entry per released token)
 }
 
 func (o *Obs) sortAll() {
@@ -94,7 +95,8 @@ type M struct {
 	AllFlows     []string
 	AllLandmarks []string
 	// groups: event-based gateway group id -> member tokens
-	groups map[int][]*Token
+	groups  map[int][]*Token
+	parSeen map[string]map[int]bool
 }
 
 // New creates the model for a program with initial variables.
